@@ -147,9 +147,12 @@ def run(facts, rep, tier, ctx):
                             is_lookup = t[0] == "call" and (t[1] in ("HashMap::get", "HashMap::contains_key") or str(t[1]).endswith("RustEmbed::get"))
                             if is_lookup and ((g[0] == "variant" and g[2] == "err") or (g[0] == "bool" and g[2] is False)):
                                 miss = True
+                        def is_norm_call(t_):
+                            hb = inter.body_of_call(t_) if t_[0] == "call" else None
+                            return hb is not None and bool(norm_fns) and hb.id == norm_fns[0].id
                         other = [g for g in gs if not (peel(g[1])[0] == "call" and (peel(g[1])[1] in ("HashMap::get", "HashMap::contains_key", "str::is_empty") or
                                                                                    str(peel(g[1])[1]).endswith("RustEmbed::get") or
-                                                                                   str(peel(g[1])[1]).endswith("normalize_path")))]
+                                                                                   is_norm_call(peel(g[1]))))]
                         k += 1
                         rep.ob("R18.3", b.id, "%s: FileNotFound only on a lookup miss" % m, miss and not other, "" if (miss and not other) else
                                "FileNotFound is built under %s: an existing embedded entry can be reported as missing" %
@@ -168,12 +171,13 @@ def run(facts, rep, tier, ctx):
                 a = norm(tr.operand(t.args[0]))
                 key = norm(tr.operand(t.args[1]))
                 fld = [x[2] for x in walk(a) if x[0] == "field"]
-                seq.append((blk.idx, fld[0] if fld else "?", peel(key)[0] == "call" and bool(norm_fns) and sname(peel(key)[1]) == norm_fns[0].name))
+                kb = inter.body_of_call(peel(key)) if peel(key)[0] == "call" else None
+                seq.append((blk.idx, fld[0] if fld else "?", kb is not None and bool(norm_fns) and kb.id == norm_fns[0].id))
         seq.sort()
         order[m] = seq
         k += 1
-        ok = [s[1] for s in seq][:2] == ["files", "directory_map"] and all(s[2] for s in seq)
-        rep.ob("R18.3", b.id, "%s consults files then directory_map with the normalised key" % m, ok, str([(s[1], s[2]) for s in seq]), b.span)
+        ok = sorted({s[1] for s in seq}) == ["directory_map", "files"] and all(s[2] for s in seq)
+        rep.ob("R18.3", b.id, "%s consults both maps (files and directories) with the normalised key" % m, ok, str([(s[1], s[2]) for s in seq]), b.span)
     rep.floor("lookup obligations", k, 8)
     # ---- R18.5 construction
     new = facts.body("impls::embedded::EmbeddedFS::<T>::new")
